@@ -16,7 +16,12 @@ import (
 	"wa-lang.org/wa/verifbridge/mallocb"
 )
 
-type Engine struct{ tier string }
+type Engine struct {
+	tier string
+	run  uint64
+}
+
+func (e *Engine) SetRun(seed, run uint64) { e.run = run }
 
 func New() sim.Engine { return &Engine{} }
 
@@ -99,36 +104,36 @@ func (r *run) fill(b block) {
 	m := r.mem
 	if b.req <= 2*edge {
 		for i := int32(0); i < b.req; i++ {
-			m[b.addr+i] = pat(b.serial, i)
+			m[int64(uint32(b.addr))+int64(i)] = pat(b.serial, i)
 		}
 		return
 	}
 	for i := int32(0); i < edge; i++ {
-		m[b.addr+i] = pat(b.serial, i)
+		m[int64(uint32(b.addr))+int64(i)] = pat(b.serial, i)
 		j := b.req - 1 - i
-		m[b.addr+j] = pat(b.serial, j)
+		m[int64(uint32(b.addr))+int64(j)] = pat(b.serial, j)
 	}
 }
 
 func (r *run) intact(b block) (int32, bool) {
 	m := r.mem
-	if int64(b.addr)+int64(b.req) > int64(len(m)) {
+	if int64(uint32(b.addr))+int64(b.req) > int64(len(m)) {
 		return 0, false
 	}
 	if b.req <= 2*edge {
 		for i := int32(0); i < b.req; i++ {
-			if m[b.addr+i] != pat(b.serial, i) {
+			if m[int64(uint32(b.addr))+int64(i)] != pat(b.serial, i) {
 				return i, false
 			}
 		}
 		return 0, true
 	}
 	for i := int32(0); i < edge; i++ {
-		if m[b.addr+i] != pat(b.serial, i) {
+		if m[int64(uint32(b.addr))+int64(i)] != pat(b.serial, i) {
 			return i, false
 		}
 		j := b.req - 1 - i
-		if m[b.addr+j] != pat(b.serial, j) {
+		if m[int64(uint32(b.addr))+int64(j)] != pat(b.serial, j) {
 			return j, false
 		}
 	}
@@ -136,10 +141,11 @@ func (r *run) intact(b block) (int32, bool) {
 }
 
 func (r *run) le32(off int32) (int32, bool) {
-	if off < 0 || int64(off)+4 > int64(len(r.mem)) {
+	o := int64(uint32(off))
+	if o+4 > int64(len(r.mem)) {
 		return 0, false
 	}
-	return int32(binary.LittleEndian.Uint32(r.mem[off:])), true
+	return int32(binary.LittleEndian.Uint32(r.mem[o:])), true
 }
 
 // check re-derives the heap layout from memory and checks the invariants.
@@ -153,22 +159,25 @@ func (r *run) check() *outcome {
 		return nil
 	}
 	memsz := int64(len(r.mem))
-	if !(base+48 <= hptr && hptr <= top && int64(top) <= memsz) {
+	// addresses are unsigned 32-bit quantities (heap_top may be exactly 2^31)
+	ubase, uhptr, utop := int64(uint32(base)), int64(uint32(hptr)), int64(uint32(top))
+	if !(ubase+48 <= uhptr && uhptr <= utop && utop <= memsz) {
 		return &outcome{"heap_bounds", fmt.Sprintf("heap_base+48=%d heap_ptr=%d heap_top=%d memory=%d bytes: not ordered", base+48, hptr, top, memsz)}
 	}
 	// tiling
 	tiles := map[int32]int32{}
-	p := base + 48
-	for p < hptr {
-		if p+8 > hptr {
-			return &outcome{"tiling", fmt.Sprintf("block header at %d crosses heap_ptr %d", p, hptr)}
+	up := ubase + 48
+	for up < uhptr {
+		p := int32(uint32(up))
+		if up+8 > uhptr {
+			return &outcome{"tiling", fmt.Sprintf("block header at %d crosses heap_ptr %d", up, uhptr)}
 		}
 		size, _ := r.le32(p)
-		if size < 0 || size%8 != 0 || int64(p)+8+int64(size) > int64(hptr) {
-			return &outcome{"tiling", fmt.Sprintf("block at %d has size field %d: walking block headers from heap_base+48 does not tile the heap up to heap_ptr %d", p, size, hptr)}
+		if size < 0 || size%8 != 0 || up+8+int64(size) > uhptr {
+			return &outcome{"tiling", fmt.Sprintf("block at %d has size field %d: walking block headers from heap_base+48 does not tile the heap up to heap_ptr %d", up, size, uhptr)}
 		}
 		tiles[p] = size
-		p += 8 + size
+		up += 8 + int64(size)
 	}
 	r.tiles = tiles
 	liveHdr := map[int32]bool{}
@@ -329,6 +338,19 @@ func (e *Engine) Run(t *tape.Tape, keep bool) *sim.Result {
 	}
 	capv := []int32{100, 0, 1, 2, 3, 8, 64}[t.Draw(7)]
 	refuseDen := []int{0, 3, 8, 32}[t.Draw(4)]
+	// rare: a heap that may grow to 1-2 GiB, with requests up to 2^30
+	// (expensive: a run with GiB-sized memories takes 10-60 s in the vendored wazero,
+	// whose memory.grow re-allocates and copies) - thorough tier only, one run in 3000
+	hd := t.Draw(3000)
+	huge := hd == 2999 && e.tier == "thorough"
+	if huge {
+		pages = 1
+		maxp = []int32{32768, 16385, 16500, 24000}[t.Draw(4)]
+		if base+48 >= pages*65536 || base <= stack {
+			base = 10 << 12
+		}
+		res.Probes["huge_heap_runs"]++
+	}
 	r.cfg = mallocb.Config{MemoryPages: pages, MemoryPagesMax: maxp, StackPtr: stack, HeapBase: base, HeapLFixedCap: capv}
 	nops := 0
 	switch t.Pick(3, 4, 3) {
@@ -338,6 +360,9 @@ func (e *Engine) Run(t *tape.Tape, keep bool) *sim.Result {
 		nops = t.Range(1, 60)
 	default:
 		nops = t.Range(1, 400)
+	}
+	if huge && nops > 8 {
+		nops = 1 + nops%8
 	}
 	mallocPct := []int{50, 65, 80, 35, 95}[t.Draw(5)]
 	flipAt := t.Draw(nops + 1)
@@ -399,6 +424,9 @@ func (e *Engine) Run(t *tape.Tape, keep bool) *sim.Result {
 		}
 		if doMalloc {
 			size := genSize(cat, val, int64(maxp)*65536)
+			if huge {
+				size = []int32{1 << 30, 1<<30 - 8, 1 << 29, 1<<29 + 8, 1 << 28, 1<<30 - 65536, 3 << 28, 100}[val%8]
+			}
 			r.refuseNow = refuse
 			g0, gr0, gf0 := h.GrowCalls, h.GrowRefused, h.GrowFailed
 			ptr, err := h.Malloc(size)
@@ -442,10 +470,10 @@ func (e *Engine) Run(t *tape.Tape, keep bool) *sim.Result {
 					}
 				}
 				blk := int64(need) + 8
-				if int64(preHptr)+blk < int64(preTop) {
+				if int64(uint32(preHptr))+blk < int64(uint32(preTop)) {
 					return fail(&outcome{"unjustified_failure", fmt.Sprintf("malloc(%d) returned 0 although %d bytes fit between heap_ptr %d and heap_top %d", size, blk, preHptr, preTop)}, op, "malloc("+szSig+")")
 				}
-				minPages := (int64(preHptr)+blk-int64(preTop))/65536 + 1
+				minPages := (int64(uint32(preHptr))+blk-int64(uint32(preTop)))/65536 + 1
 				cur := int64(preMem / 65536)
 				switch {
 				case h.GrowRefused > gr0:
@@ -471,7 +499,7 @@ func (e *Engine) Run(t *tape.Tape, keep bool) *sim.Result {
 			if ptr%8 != 0 {
 				return fail(&outcome{"bad_pointer", fmt.Sprintf("%s returned %d: not 8-byte aligned", op, ptr)}, op, "malloc("+szSig+")")
 			}
-			if ptr-8 < base+48 || int64(ptr)+int64(size) > int64(hp) || int64(ptr)+int64(size) > int64(len(r.mem)) {
+			if int64(uint32(ptr))-8 < int64(uint32(base))+48 || int64(uint32(ptr))+int64(size) > int64(uint32(hp)) || int64(uint32(ptr))+int64(size) > int64(len(r.mem)) {
 				return fail(&outcome{"bad_pointer", fmt.Sprintf("%s returned %d: outside the heap region [%d,%d) / memory %d (list headers occupy [%d,%d))", op, ptr, base+48+8, hp, len(r.mem), base, base+48)}, op, "malloc("+szSig+")")
 			}
 			for _, b := range r.live {
@@ -487,7 +515,7 @@ func (e *Engine) Run(t *tape.Tape, keep bool) *sim.Result {
 				return fail(oc, op, "malloc("+szSig+")")
 			}
 			switch {
-			case ptr-8 >= preHptr:
+			case int64(uint32(ptr))-8 >= int64(uint32(preHptr)):
 				res.Probes["bump_allocation"]++
 			case cls >= 0 && r.fixedLen[cls] < preFixed[cls]:
 				res.Probes["reuse_fixed"]++
